@@ -11,6 +11,8 @@ META = {
     'level': 'other',
     'configs': {'quick': ['default'], 'thorough': ['default', 'norayon', 'default_nodebug']},
     'rules': {
+        'R6': 'degenerate point sets are cut by every candidate (C01.R1): a single generator, a collinear or coplanar set in a periodic box is bounded by images of its own '
+              'generator; the builder may remove exactly the first stream item (the generator itself, unshifted) and must clip with, or terminate on, every other item',
         'R1': 'integer-grid domain: for every (dimensionality x periodic) configuration and every position the clip routine can pass to iloc — the generator L, a neighbour g + shift, '
               'the mirror image of L through each wall — the rescaled coordinate lies in [1, 2) for all generators in the closed box (affine range evaluation over the reals)',
         'R2': 'the five points of the exact predicate are distinct: the wall arm of right_loc is the mirror image 2*proj - L, which must differ from L for every generator in the closed box',
@@ -37,7 +39,7 @@ def run(ctx):
     for cfg in ctx.configs_used:
         F = ctx.facts(cfg)
         sfx = '' if cfg == 'default' else '@' + cfg
-        for fn in (r1, r2, r3, r4, r5):
+        for fn in (r1, r2, r3, r4, r5, r6):
             rule = 'C05.' + fn.__name__.upper()
             ctx.guarded(rule, 'evaluate' + sfx, lambda: fn(ctx, F, rule, sfx))
 
@@ -356,3 +358,8 @@ def r4(ctx, F, rule, sfx):
     fl = [x for x in ip.events if x.callee and strip_generics(x.callee).endswith('HalfSpace::clip') and x.body is cb]
     if fl and vert is not None:
         ctx.check(rule, 'same-vertex-as-filter' + sfx, repr(fl[0].fargs[1]) == vert + '.loc', repr(fl[0].fargs[1])[-60:], vert[-50:] + '.loc', w, key_extra='same-vertex')
+
+
+def r6(ctx, F, rule, sfx):
+    from . import c01
+    c01.r1(ctx, F, rule, sfx)
